@@ -222,7 +222,7 @@ func runPickPhase(c *explore.Ctx, pool *explore.Pool, quick bool) {
 	pool.Map(raw, func(i int, b []byte, err error) {
 		var r pickResult
 		if err != nil {
-			r.Viol = []string{"worker crashed: " + err.Error()}
+			r.Viol = explore.CrashViol(err)
 		} else {
 			json.Unmarshal(b, &r)
 		}
